@@ -616,7 +616,11 @@ func (s *state) evalExpr(exp parse.Expr) (v Value, e error) {
 		case parse.OpBinaryFloorDiv:
 			return math.Floor(CoerceNumber(left) / CoerceNumber(right)), nil
 		case parse.OpBinaryModulo:
-			return float64(int(CoerceNumber(left)) % int(CoerceNumber(right))), nil
+			l, r := int(CoerceNumber(left)), int(CoerceNumber(right))
+			if r == 0 {
+				return nil, errors.New("modulo by zero")
+			}
+			return float64(l % r), nil
 		case parse.OpBinaryPower:
 			return math.Pow(CoerceNumber(left), CoerceNumber(right)), nil
 		case parse.OpBinaryConcat:
